@@ -25,7 +25,7 @@ SIM_LIST = sorted(simcases.CONT) + ["discrete_SIR"]
 
 
 def plan(tier):
-    n = 700 if tier == "quick" else 40000
+    n = 5000 if tier == "quick" else 150000
     return [(s, n) for s in SIM_LIST]
 
 
